@@ -9,7 +9,9 @@
 #include <babylon/executor.h>
 
 #include <stdio.h>
+#include <stdlib.h>
 #include <string.h>
+#include <unistd.h>
 
 #include <chrono>
 #include <memory>
@@ -68,6 +70,7 @@ struct World {
 World* W;
 
 int value_of(int id) { return id * 7 + 1; }
+void trace_line(const char* tag);
 
 void spawn(int id);
 
@@ -154,6 +157,7 @@ void check_future_ready(int id, const char* when) {
 struct Shape {
   int max_tasks;
   int max_roots;
+  int max_spawned = 100;  // tasks submitted from inside tasks
 };
 void gen_forest(Chooser& c, const Shape& sh, int nsub, bool allow_refuse) {
   int nroots = c.range(1, sh.max_roots);
@@ -169,15 +173,21 @@ void gen_forest(Chooser& c, const Shape& sh, int nsub, bool allow_refuse) {
     if (parent >= 0) W->spec[(size_t)parent].children.push_back(t.id);
     return t.id;
   };
+  int spawned = 0;
+  auto room = [&] { return (int)W->spec.size() < sh.max_tasks && spawned < sh.max_spawned; };
   for (int r = 0; r < nroots && (int)W->spec.size() < sh.max_tasks; r++) {
     int root = add(-1, 0);
     W->spec[(size_t)root].submitter = (int)c.below((uint32_t)nsub + 1);
     W->spec[(size_t)root].wakeup_after = c.chance(1, 5);
     int nch = c.range(0, 3);
-    for (int k = 0; k < nch && (int)W->spec.size() < sh.max_tasks; k++) {
+    for (int k = 0; k < nch && room(); k++) {
       int ch = add(root, 1);
+      spawned++;
       int ng = c.range(0, 2);
-      for (int g = 0; g < ng && (int)W->spec.size() < sh.max_tasks; g++) add(ch, 2);
+      for (int g = 0; g < ng && room(); g++) {
+        add(ch, 2);
+        spawned++;
+      }
     }
   }
   W->state.resize(W->spec.size());
@@ -220,6 +230,7 @@ void final_accounting() {
 void run_pool(Chooser& c) {
   int workers = c.range(1, 3);
   int local_cap = c.range(0, 4);
+  bool fit_local = c.chance(1, 2);  // make the local capacity large enough for every spawn of the program
   int global_cap = c.range(1, 4);
   bool steal = c.flip();
   bool balance = c.chance(1, 3);
@@ -228,13 +239,15 @@ void run_pool(Chooser& c) {
   bool dtor_only = !racing && c.chance(1, 5);
   bool wait_roots = !racing && c.chance(1, 4);
   bool double_stop = c.chance(1, 4);
-  gen_forest(c, Shape{12, 5}, nsub, false);
+  int extra_wakeups = c.range(0, 2);  // wakeup_one_worker() calls by the main thread after its submissions
+  gen_forest(c, Shape{12, 6, fit_local ? 4 : 100}, nsub, false);
 
-  int R = 0, S = 0;
+  int R = extra_wakeups, S = 0;
   for (const TaskSpec& t : W->spec) {
     if (t.parent < 0) R += 1 + (t.wakeup_after ? 1 : 0);
     else S++;
   }
+  if (fit_local && S > local_cap) local_cap = S;  // S <= 4 in this mode
   // every spawn of a worker fits its local queue whatever the schedule
   bool all_local = S == 0 || (local_cap > 0 && S <= local_cap);
   // Precondition (no deadlock "by design"): a worker (or a submitter racing stop()) must never wait on a full
@@ -252,10 +265,11 @@ void run_pool(Chooser& c) {
     for (TaskSpec& t : W->spec)
       if (t.parent >= 0) t.use_execute = false;
 
-  dsched::describe("pool w=%d local=%d global=%d(real %zu) steal=%d balance=%d subs=%d%s%s%s%s all_local=%d;", workers, local_cap, global_cap,
-                   W->global_real, (int)steal, (int)balance, nsub, racing ? " RACING-STOP" : "", dtor_only ? " dtor-only" : "",
+  dsched::describe("pool w=%d local=%d global=%d(real %zu) steal=%d balance=%d subs=%d wk=%d%s%s%s%s all_local=%d;", workers, local_cap, global_cap,
+                   W->global_real, (int)steal, (int)balance, nsub, extra_wakeups, racing ? " RACING-STOP" : "", dtor_only ? " dtor-only" : "",
                    wait_roots ? " wait-roots" : "", double_stop ? " stop-twice" : "", (int)all_local);
   describe_forest();
+  trace_line("B");
   dsched::label("pool");
   if (racing) dsched::label("stop_races_submitters");
   if (dtor_only) dsched::label("stop_by_destructor");
@@ -319,6 +333,11 @@ void run_pool(Chooser& c) {
     std::vector<std::thread> subs;
     for (int k = 1; k <= nsub; k++) subs.emplace_back([&, k] { run_submitter(k); });
     run_submitter(0);
+    for (int i = 0; i < extra_wakeups; i++) {
+      dsched::yield_point();
+      ex.wakeup_one_worker();
+      dsched::label("wakeup_one_worker");
+    }
     if (!racing)
       for (auto& th : subs) th.join();
     if (wait_roots) {
@@ -365,6 +384,7 @@ void run_inplace(Chooser& c) {
   gen_forest(c, Shape{10, 4}, nsub, false);
   dsched::describe("inplace subs=%d;", nsub);
   describe_forest();
+  trace_line("B");
   dsched::label("inplace");
   auto check_subtree_done = [&](int id, auto&& self) -> void {
     const TaskState& s = W->state[(size_t)id];
@@ -402,6 +422,7 @@ void run_newthread(Chooser& c) {
   gen_forest(c, Shape{9, 4}, nsub, false);
   dsched::describe("newthread subs=%d;", nsub);
   describe_forest();
+  trace_line("B");
   dsched::label("new_thread");
   auto run_submitter = [&](int who) {
     for (const TaskSpec& t : W->spec) {
@@ -453,6 +474,7 @@ void run_refusing(Chooser& c) {
   gen_forest(c, Shape{10, 5}, 0, true);
   dsched::describe("refusing;");
   describe_forest();
+  trace_line("B");
   dsched::label("refusing");
   W->refusing_next = &ex.next_id;  // spawn() tells invoke() which task the next attempt belongs to
   bool any_refused = false;
@@ -487,9 +509,29 @@ void run_refusing(Chooser& c) {
   if (any_refused) dsched::nontrivial();
 }
 
+// debugging aid: VF_TRACE_FILE=<path> appends "B <pid> <description>" / "E <pid>" lines per case
+dsched::Params g_params;   // copy for the trace only
+const Chooser* g_chooser;
+void trace_line(const char* tag) {
+  const char* f = getenv("VF_TRACE_FILE");
+  if (!f) return;
+  FILE* fp = fopen(f, "a");
+  if (!fp) return;
+  if (tag[0] == 'B') {
+    fprintf(fp, "B %d seed=%lu strategy=%d pct_depth=%d p_switch=%u p_stale=%u prog=[", (int)getpid(), (unsigned long)g_params.seed,
+            g_params.strategy, g_params.pct_depth, g_params.p_switch_x1000, g_params.p_stale_x1000);
+    for (size_t i = 0; i < g_chooser->pos && i < g_chooser->data->size(); i++) fprintf(fp, "%s%u", i ? "," : "", (*g_chooser->data)[i]);
+    fprintf(fp, "] %s\n", dsched::result_block()->describe);
+  } else {
+    fprintf(fp, "E %d steps=%lu switches=%lu\n", (int)getpid(), (unsigned long)dsched::step(), (unsigned long)dsched::stat_switches());
+  }
+  fclose(fp);
+}
+
 void run_case(Chooser& c) {
   World world;
   W = &world;
+  g_chooser = &c;
   uint32_t k = c.below(12);
   world.kind = k < 9 ? E_POOL : k == 9 ? E_INPLACE : k == 10 ? E_NEWTHREAD : E_REFUSING;
   switch (world.kind) {
@@ -499,10 +541,14 @@ void run_case(Chooser& c) {
     case E_REFUSING: run_refusing(c); break;
   }
   dsched::mix_hash(dsched::stat_switches());
+  trace_line("E");
   W = nullptr;
 }
 
-void tune(dsched::Params& p, Chooser&) { p.max_steps = 300000; }
+void tune(dsched::Params& p, Chooser&) {
+  p.max_steps = 300000;
+  g_params = p;
+}
 
 }  // namespace
 
